@@ -1,8 +1,6 @@
 package main
 
 import (
-	"os"
-	"runtime/debug"
 	"fmt"
 	"go/ast"
 	"go/constant"
@@ -10,7 +8,9 @@ import (
 	"go/token"
 	"go/types"
 	"math/big"
+	"os"
 	"regexp"
+	"runtime/debug"
 	"sort"
 	"strings"
 	"sync"
@@ -111,62 +111,67 @@ type Obligation struct {
 }
 
 type FnCtx struct {
-	eng           *Engine
-	fn            *ssa.Function
-	contract      *Contract
-	decls         []string
-	declSet       map[string]bool
-	varSort       map[string]string
-	facts         []Fact
-	obls          []*Obligation
-	counter       int
-	nameCnt       map[string]int
-	pow2Args      []string
-	errors        []string // unsupported constructs
-	init          *State   // initial state (empty: all vars at !0)
-	assumptions   map[string]bool
-	depth         int
-	trusted       map[string]bool
-	closures      map[string]*ssa.MakeClosure
-	boxed         map[string]Val
-	iters         map[string]*ssa.Range
-	knownLen      map[string]int64
-	pendingAxioms map[string]*Axiom
-	nReqFacts     int
-	qcount        int
-	havocAllUsed  bool
-	lastMarshal   *marshalInfo
-	encrypts      []encryptRec
-	pendingClosed [][2]string
-	closedDecls   []string
-	cands         []string
-	sliceLows     []string // symbolic lower bounds of reslicing expressions (indices into the base are lo+i)
-	foldTerms     map[string][]foldRec
-	recording     *[]string                  // when set, heap variables read are recorded here
-	localRefs     map[string]bool            // objects allocated by this function that have not escaped (never stored, passed or returned)
-	reachBlock    map[string]*ssa.BasicBlock // reach term of a top-level block -> block
-	ancCache      map[*ssa.BasicBlock]map[*ssa.BasicBlock]bool
-	candBlock     map[string]*ssa.BasicBlock
-	curBlock      *ssa.BasicBlock // block being executed in the top-level frame
-	appendLens    []string
-	hasMixedQuant bool // some quantified variable is used both as a position and as a map key
-	storeRef      map[string]string // heap version defined as (store parent ref v) -> ref
-	mergeConst    map[string]bool   // heap versions defined as a merge (ite) of their parents
-	declStamp     map[int]int
-	stampFloor    int
-	candKind      map[string]int
-	skKind        map[string]int
-	appendOffs    []string
-	heapAlloc     map[string]string // heap version -> allocation counter when it was created
-	closedNoted   map[string]bool
-	knownBig      map[string]string
-	nonlinear     bool
-	frames        map[string]frameInfo
-	parents       map[string][]string
-	noted         map[string]bool
-	candSet       map[string]bool
-	pendingVals   []Val
-	pendingRows   [][2]string
+	eng                                        *Engine
+	fn                                         *ssa.Function
+	contract                                   *Contract
+	decls                                      []string
+	declSet                                    map[string]bool
+	varSort                                    map[string]string
+	facts                                      []Fact
+	obls                                       []*Obligation
+	counter                                    int
+	nameCnt                                    map[string]int
+	pow2Args                                   []string
+	errors                                     []string // unsupported constructs
+	init                                       *State   // initial state (empty: all vars at !0)
+	assumptions                                map[string]bool
+	depth                                      int
+	trusted                                    map[string]bool
+	closures                                   map[string]*ssa.MakeClosure
+	boxed                                      map[string]Val
+	iters                                      map[string]*ssa.Range
+	knownLen                                   map[string]int64
+	pendingAxioms                              map[string]*Axiom
+	nReqFacts                                  int
+	qcount                                     int
+	havocAllUsed                               bool
+	lastMarshal                                *marshalInfo
+	encrypts                                   []encryptRec
+	pendingClosed                              [][2]string
+	closedDecls                                []string
+	cands                                      []string
+	sliceLows                                  []string // symbolic lower bounds of reslicing expressions (indices into the base are lo+i)
+	foldTerms                                  map[string][]foldRec
+	recording                                  *[]string                  // when set, heap variables read are recorded here
+	localRefs                                  map[string]bool            // objects allocated by this function that have not escaped (never stored, passed or returned)
+	reachBlock                                 map[string]*ssa.BasicBlock // reach term of a top-level block -> block
+	ancCache                                   map[*ssa.BasicBlock]map[*ssa.BasicBlock]bool
+	candBlock                                  map[string]*ssa.BasicBlock
+	curBlock                                   *ssa.BasicBlock // block being executed in the top-level frame
+	appendLens                                 []string
+	lastFoldHeaps, lastFoldSorts, lastFoldArgs []string
+	lastFoldElemAt                             func(string) string
+	abbrev                                     map[string]string      // large integer terms of predicates -> the constant naming them
+	noAux                                      bool                   // do not emit the defining facts of pow2 / bitlen terms (elements of folds at witness positions)
+	mapIters                                   map[string]mapIterInfo // map iterators: the map they range over and its key set at that moment
+	hasMixedQuant                              bool                   // some quantified variable is used both as a position and as a map key
+	storeRef                                   map[string]string      // heap version defined as (store parent ref v) -> ref
+	mergeConst                                 map[string]bool        // heap versions defined as a merge (ite) of their parents
+	declStamp                                  map[int]int
+	stampFloor                                 int
+	candKind                                   map[string]int
+	skKind                                     map[string]int
+	appendOffs                                 []string
+	heapAlloc                                  map[string]string // heap version -> allocation counter when it was created
+	closedNoted                                map[string]bool
+	knownBig                                   map[string]string
+	nonlinear                                  bool
+	frames                                     map[string]frameInfo
+	parents                                    map[string][]string
+	noted                                      map[string]bool
+	candSet                                    map[string]bool
+	pendingVals                                []Val
+	pendingRows                                [][2]string
 }
 
 type Engine struct {
@@ -633,7 +638,8 @@ func elemKey(t types.Type) string {
 const hBV = "BV"
 const hAlloc = "$alloc"
 const hIter = "ITS"
-const hChan = "CH" // channel contents abstraction (unused detail)
+const hIterN = "ITN" // ghost: number of keys a map iterator has handed out
+const hChan = "CH"   // channel contents abstraction (unused detail)
 
 func (fc *FnCtx) sortOfVar(name string) string {
 	if s, ok := fc.varSort[name]; ok {
@@ -647,6 +653,12 @@ func (fc *FnCtx) regVar(name, sort string) {
 		panic(fmt.Sprintf("heap var %s sort mismatch %s vs %s", name, old, sort))
 	}
 	fc.varSort[name] = sort
+}
+
+type mapIterInfo struct {
+	m     string
+	mt    types.Type
+	mpRow string
 }
 
 type frameInfo struct {
